@@ -1036,6 +1036,84 @@ def evaluate(ctx, res, env, bulk, fams):
     return J
 
 
+# ---- ==-equal twins asked in one process (history independence of every accessor / special-form predicate) ----------------
+TWINS = [
+    ("typing.Union[int, str]", "typing.Union[str, int]"),
+    ("typing.Optional[bytes]", "typing.Union[None, bytes]"),
+    ("float | None", "None | float"),
+    ("int | str", "typing.Union[int, str]"),
+    ("int | None", "typing.Optional[int]"),
+    ("typing.Literal['a', 'b']", "typing.Literal['b', 'a']"),
+    ("typing.Literal[1, None]", "typing.Literal[None, 1]"),
+    ("typing.Union[int, str, None]", "typing.Optional[typing.Union[str, int]]"),
+    ("list[typing.Union[int, str]]", "list[typing.Union[str, int]]"),
+    ("dict[str, int | None]", "dict[str, typing.Optional[int]]"),
+    ("tuple[typing.Union[int, str], ...]", "tuple[typing.Union[str, int], ...]"),
+]   # (no typing.X[Union[..]] twins: typing's own _tp_cache returns the SAME object for both spellings -- CPython, not typelib)
+# functions whose documented domain contains unions / literals / generics (class-valued predicates applied to special forms are
+# outside the domain of C17)
+TWIN_FUNCS = ["origin", "args", "unwrap", "name", "qualname", "isuniontype", "isoptionaltype", "isliteral", "isfinal", "isclassvartype",
+              "isnonetype", "isforwardref", "isgeneric", "issubscriptedgeneric", "isfixedtupletype", "isunresolvable", "isstdlibtype",
+              "isbuiltintype", "isstructuredtype", "should_unwrap", "get_type_hints", "istypedtuple", "isbuiltinsubtype",
+              "isstdlibsubtype", "resolve_supertype", "isabstract", "ishashable"]
+# read str(t) / are memoised by == by design: the recorded finding reprBasedGenericDetection
+TWIN_KNOWN = {"isgeneric", "issubscriptedgeneric", "name", "qualname", "origin", "resolve_supertype", "unwrap", "get_type_hints"}
+
+
+def _twin_child(job):
+    import warnings
+    warnings.simplefilter("ignore")
+    import typing  # noqa: F401
+    from typelib.py import inspection as I
+
+    def obs(f, a):
+        try:
+            return repr(f(a))[:200]
+        except Exception as e:  # noqa: BLE001
+            return "raise " + type(e).__name__
+    out = []
+    for fname, exprs in job:
+        f = getattr(I, fname, None)
+        if f is None:
+            out.append(None)
+            continue
+        out.append([obs(f, eval(e)) for e in exprs])
+    return out
+
+
+def twins_pass(ctx, res):
+    """f(B) asked right after f(A) for A == B (distinct objects, different member order / spelling) must be what f(B) answers in a
+    cold process: the accessors follow the object they are given, not an equal one seen before."""
+    warm_jobs = [[(fn, [a, b]) for fn in TWIN_FUNCS] for a, b in TWINS] + [[(fn, [b, a]) for fn in TWIN_FUNCS] for a, b in TWINS]
+    cold_jobs = [[(fn, [x])] for a, b in TWINS for x in (a, b) for fn in TWIN_FUNCS]
+    outs = iso.map_isolated(_twin_child, warm_jobs + cold_jobs, timeout=120)
+    warm, cold_outs = outs[:len(warm_jobs)], outs[len(warm_jobs):]
+    cold = {}
+    it = iter(cold_outs)
+    for a, b in TWINS:
+        for x in (a, b):
+            for fn in TWIN_FUNCS:
+                o = next(it)
+                cold[(fn, x)] = o[0][0] if isinstance(o, list) and o[0] else None
+    pairs = [(a, b) for a, b in TWINS] + [(b, a) for a, b in TWINS]
+    for (a, b), out in zip(pairs, warm):
+        if not isinstance(out, list):
+            raise RuntimeError(f"harness: twin probe failed: {out}")
+        for fn, o in zip(TWIN_FUNCS, out):
+            if o is None or cold.get((fn, b)) is None:
+                continue
+            res.case({"twins": [a, b], "pred": fn}, True)
+            if o[1] != cold[(fn, b)]:
+                f = {"what": f"{fn}({b}) asked after {fn}({a}) (an ==-equal annotation) answers {o[1]} instead of {cold[(fn, b)]}: the "
+                             "answer depends on call history",
+                     "input": {"twins": [a, b], "pred": fn, "shown": b, "ann": None}, "real": o[1], "expected": cold[(fn, b)]}
+                if fn in TWIN_KNOWN:
+                    f["finding"] = F_REPR
+                res.failures.append(f)
+            else:
+                res.count("oracle:twins-history-independent")
+
+
 def explore(ctx):
     res = Result()
     res.rule = RULE
@@ -1048,6 +1126,7 @@ def explore(ctx):
     bulk, fams = build_annotations(ctx, env)
     evaluate(ctx, res, env, bulk, fams)
     evaluate_helpers(res)
+    twins_pass(ctx, res)
     return res
 
 
@@ -1097,6 +1176,12 @@ def witness(fid):
 
 def replay(failure):
     inp = failure["input"]
+    if "twins" in inp:
+        core.import_typelib()
+        a, b = inp["twins"]
+        warm, cold = iso.map_isolated(_twin_child, [[(inp["pred"], [a, b])], [(inp["pred"], [b])]])
+        print(json.dumps({"asked": [a, b], "warm": warm, "cold (second alone)": cold}, indent=1))
+        return warm[0][1] != cold[0][0]
     res = Result()
     core.import_typelib()
     from typelib.py import inspection
